@@ -59,6 +59,12 @@ NumText(z, style) == CASE style = 1 -> ToString(z)
                        [] style = 3 -> "00" \o ToString(z)
                        [] style = 4 -> " " \o ToString(z) \o " "
 
+(* a digit string decorated the way Python's int() tolerates but no chemist writes: these are not numbers of elements *)
+NumJunkText(z, style) == CASE style = 1 -> "+" \o ToString(z)
+                           [] style = 2 -> (IF z >= 10 THEN ToString(z \div 10) \o "_" \o ToString(z % 10) ELSE "0_" \o ToString(z))
+                           [] style = 3 -> ToString(z) \o "_"
+                           [] style = 4 -> "_" \o ToString(z)
+                           [] style = 5 -> "+0" \o ToString(z)
 LeadJunk == <<"0", "1", "3", "100", "1.5", "1.2 ", "#", "-1", "_", "(", "0b", "0o", "-", ".", "12", "$", "*", "[">>
 JunkTails == <<"", "1", "7", "2A">>
 
@@ -73,6 +79,7 @@ SpellingText(sp) ==
     [] sp.kind = "badlong" -> PairText(SymCode[sp.z], sp.v) \o LongTails[sp.a]
     \* something that is not a letter in front of a symbol ("100K", "0b1", "#N", "1.5f"): the string does not START with the
     \* symbol, it names no element (an atom label starts with the symbol; a number is a number only as a whole)
+    [] sp.kind = "numjunk" -> NumJunkText(sp.z, sp.v)
     [] sp.kind = "prefixed" -> LeadJunk[sp.a] \o PairText(SymCode[sp.z], sp.v) \o JunkTails[sp.b]
 
 (* deuterium: "D" is deliberately read as hydrogen by the library; excluded from the rejected strings *)
@@ -80,7 +87,7 @@ DeuteriumCode == <<4, 0>>
 BadCodes == {c \in ((1..26) \X (0..26)) : ~IsSymbolCode(c) /\ c # DeuteriumCode}
 
 (* what a spelling must resolve to: an atomic number, or 0 for "must be rejected" *)
-Lookup(sp) == IF sp.kind \in {"bad", "badlong", "prefixed"} THEN 0 ELSE IF sp.z \in ElementZ THEN sp.z ELSE 0     \* "0", "104", ... are digit strings naming no element
+Lookup(sp) == IF sp.kind \in {"bad", "badlong", "prefixed", "numjunk"} THEN 0 ELSE IF sp.z \in ElementZ THEN sp.z ELSE 0     \* "0", "104", ... are digit strings naming no element
 LookupInt(n) == IF n \in ElementZ THEN n ELSE 0
 
 (* ---- ordering and formulas --------------------------------------------------- *)
